@@ -366,6 +366,20 @@ def _register_pipeline_tables(gen, T):
             "threadsFromNumThreadsAttribute": (
                 "for attribute in&function_impl.attributes.clone(){if let ir::FunctionAttribute::NumThreads(x,y,z)=attribute{" in sadd
                 and "thread_group_size=Some((x,y,z));}}" in sadd),
+            # every numthreads argument of the implementation must evaluate to a u32, else a location-less diagnostic
+            "numthreadsMustEvaluateToU32": (
+                "let mut evaluate=|expr:&ir::Expression|{let value=match crate::evaluator::evaluate_constexpr(expr,&mut context.module){Ok(value)=>value,"
+                "_=>{return Err(TyperError::PipelinePropertyRequiresIntegerArgument(SourceLocation::UNKNOWN,));}};"
+                "let integer=match value.to_uint64(){Some(v)if v<=u32::MAX as u64=>v as u32,"
+                "_=>{return Err(TyperError::PipelinePropertyRequiresIntegerArgument(SourceLocation::UNKNOWN,));}};Ok(integer)};"
+                "let x=evaluate(x)?;let y=evaluate(y)?;let z=evaluate(z)?;thread_group_size=Some((x,y,z));") in sadd,
+            # an integer property value is type checked by parse_expr on the *live* context (this is how a value can
+            # instantiate a template: `instancesOf`, known finding property-value-instantiates-template)
+            "uintValueCheckedOnLiveContext": (
+                "let value_expr=super::expressions::parse_expr(property_value,context)?;"
+                "let value_res=crate::evaluator::evaluate_constexpr(&value_expr.0,&mut context.module);"
+                "let value=match value_res{Ok(value)=>value,_=>{return Err(TyperError::PipelinePropertyRequiresIntegerArgument(property.location,));}};"
+                "match value.to_uint64(){Some(v)if v<=u32::MAX as u64=>Ok(v as u32),_=>Err(TyperError::PipelinePropertyRequiresIntegerArgument(property.location,)),}") in squash(fn_body(text, "extract_uint32")),
             "stagePushed": sadd.endswith("def.stages.push(ir::PipelineStage{stage,entry_point:func_id,thread_group_size,});Ok(())"),
             # parse_blend_state
             "blendNeedsAggregate": spbs.startswith(
